@@ -123,8 +123,11 @@ def build(W, cfg):
     S.n_batch = cfg.get('n_batch', 1)
     S.rng = rng
     S.filepath = None
-    S.n_like = W.int('n_like')
-    W.assume(S.n_like >= 0)
+    if B == 0:
+        S.n_like = 0          # a sampler without bounds has evaluated nothing
+    else:
+        S.n_like = W.int('n_like')
+        W.assume(S.n_like >= 0)
     S.explored = explored
     S._discard_exploration = discard
     S.n_update_iter = W.int('n_update_iter')
@@ -137,6 +140,7 @@ def build(W, cfg):
             bounds.append(pkg.basic.UnitCube.compute(d, rng=rng))
         else:
             bounds.append(StubNautilusBound(i, d, token=1))
+            bounds[-1].rng = rng
     S.bounds = bounds
 
     neg = set(tuple(x) for x in cfg.get('neg_inf', []))
